@@ -372,8 +372,19 @@ func c14CLI(c *Ctx, n int, thorough bool) error {
 		disk := []DiskEntry{{Path: "in.dsl", Kind: "file", Data: []byte(text)}}
 		long, sub, abs := r.Chance(1, 2), r.Chance(1, 2), r.Chance(1, 3)
 		var goCfg *SchedConfig // set while the combined runs are repeated under other goroutine schedules
+		// process-wide OS state a target's step may read or change: in one
+		// program of three every invocation (alone and combined alike) starts
+		// in a foreign shell environment — $PWD and $OLDPWD name OTHER existing
+		// directories than the working directory (make -C, env -C, a
+		// subprocess started with cwd=...), TMPDIR and HOME live in the sandbox
+		var env []string
+		if er := NewRng(SubSeed(seed, "foreign-env", 0)); er.Chance(1, 3) {
+			env = []string{"PWD={SB}/elsewhere", "OLDPWD={SB}/before", "TMPDIR={SB}/tmp", "HOME={SB}/home"}
+			disk = append(disk, DiskEntry{Path: "elsewhere", Kind: "dir"}, DiskEntry{Path: "before", Kind: "dir"}, DiskEntry{Path: "tmp", Kind: "dir"}, DiskEntry{Path: "home", Kind: "dir"})
+			c.ev.Fire("process_starts_with_PWD_other_than_cwd", 1)
+		}
 		runSet := func(ts []string) (*CLIOutcome, *CLIWorld, error) {
-			w := &CLIWorld{Argv: compileArgv(ts, long, sub, abs), Disk0: disk, Sched: s0()}
+			w := &CLIWorld{Argv: compileArgv(ts, long, sub, abs), Disk0: disk, Sched: s0(), Env: env}
 			if goCfg != nil {
 				w.Sched = *goCfg
 			}
@@ -761,8 +772,16 @@ func (c *Ctx) candidate14CLI(caseIdx int, prog *Prog, w *CLIWorld, ts []string, 
 	abs := strings.Contains(strings.Join(w.Argv, " "), "{SB}")
 	fails := func(p *Prog, set []string) (bool, []string, *CLIWorld, *CLIWorld) {
 		disk := []DiskEntry{{Path: "in.dsl", Kind: "file", Data: []byte(p.Render())}}
-		wa := &CLIWorld{Argv: compileArgv([]string{victim}, long, sub, abs), Disk0: disk, Sched: s0()}
-		wb := &CLIWorld{Argv: compileArgvDirs(set, layoutDirs(layout, set), long, sub, abs), Disk0: disk, Sched: w.Sched}
+		if len(w.Env) > 0 {
+			// the directories the foreign environment names
+			for _, e := range w.Disk0 {
+				if e.Kind == "dir" {
+					disk = append(disk, e)
+				}
+			}
+		}
+		wa := &CLIWorld{Argv: compileArgv([]string{victim}, long, sub, abs), Disk0: disk, Sched: s0(), Env: w.Env}
+		wb := &CLIWorld{Argv: compileArgvDirs(set, layoutDirs(layout, set), long, sub, abs), Disk0: disk, Sched: w.Sched, Env: w.Env}
 		wb.Sched.Sandbox, wb.Sched.Out = "", ""
 		if victim == "*" {
 			ob, err := c.sc.RunCLI(wb)
@@ -770,7 +789,7 @@ func (c *Ctx) candidate14CLI(caseIdx int, prog *Prog, w *CLIWorld, ts []string, 
 				return false, nil, wa, wb
 			}
 			for _, t := range set {
-				wt := &CLIWorld{Argv: compileArgv([]string{t}, long, sub, abs), Disk0: disk, Sched: s0()}
+				wt := &CLIWorld{Argv: compileArgv([]string{t}, long, sub, abs), Disk0: disk, Sched: s0(), Env: w.Env}
 				ot, err := c.sc.RunCLI(wt)
 				if err != nil || ot.TimedOut || ot.Exit != 0 {
 					return false, nil, wa, wb
@@ -792,7 +811,7 @@ func (c *Ctx) candidate14CLI(caseIdx int, prog *Prog, w *CLIWorld, ts []string, 
 				if u == victim {
 					continue
 				}
-				ou, err := c.sc.RunCLI(&CLIWorld{Argv: compileArgv([]string{u}, long, sub, abs), Disk0: disk, Sched: s0()})
+				ou, err := c.sc.RunCLI(&CLIWorld{Argv: compileArgv([]string{u}, long, sub, abs), Disk0: disk, Sched: s0(), Env: w.Env})
 				if err != nil || ou.TimedOut {
 					return false, nil, wa, wb
 				}
